@@ -8,9 +8,10 @@
     `load` returns (`DddmpFile.content`, `loadDddmpU_content`, `dddmpApplyLines_filter`);
     `.auxids` is only counted (`loadDddmpU_auxids`);
   * the header parser is the grammar followed by the actions (`dddmpParseHeaderF_of_syntax`);
-  * the line dispatch by substring (`dddmpHeaderLines_cut`, `dddmpBodyLines_cut`,
-    `isInfixC_append`): a line that CONTAINS `.nodes` / `.end` — inside a variable name, a
-    comment, anywhere — ends the header / the body;
+  * the line dispatch (`dddmpHeaderLines_cut`, `dddmpBodyLines_cut`): the first line that STARTS
+    WITH `.nodes` / `.end` ends the header / the body; `noMark_of_head`: node lines and comment
+    lines are never marks (before f9d6f33 a line that CONTAINED the mark — inside a variable
+    name, a comment — cut the file: `isInfixC_append`);
   * on a text that parses, `loadDddmpText` is `loadDddmp` of the parsed content
     (`loadDddmpText_of_parse`).
 -/
@@ -223,7 +224,29 @@ theorem dddmpParseHeaderF_of_syntax : ∀ (n : Nat) (toks : List HTok) (ill : Bo
       | minus => simp [dddmpSyntaxF] at h
       | dot => simp [dddmpSyntaxF] at h
 
-/-! ### the dispatch of lines by substring -/
+/-! ### the dispatch of lines
+
+Since f9d6f33 the marks are tested at the START of a line (`hasNodesMark`, `hasEndMark` =
+`isPrefixOf`).  The `isInfixC` lemmas describe the substring test of the code before the repair
+(finding F23) and are kept for the historical statement `C16_substring_dispatch_cut`. -/
+
+/-- a line that does not start with a dot is no mark: node lines (they start with a digit or a
+sign), comment lines, header lines indented by a blank -/
+theorem noMark_of_head {c : Char} {l : List Char} (h : c ≠ '.') :
+    hasNodesMark (c :: l) = false ∧ hasEndMark (c :: l) = false := by
+  have h' : ('.' == c) = false := by
+    rw [beq_eq_false_iff_ne]; exact fun e => h e.symm
+  simp [hasNodesMark, hasEndMark, List.isPrefixOf, h']
+
+/-- a header line whose keyword is not `.nodes…` is no `.nodes` mark, whatever NAMES follow -/
+theorem noNodesMark_of_keyword {k rest : List Char}
+    (h : (['.', 'n', 'o', 'd', 'e', 's'] : List Char).isPrefixOf k = false) (hk : 6 ≤ k.length) :
+    hasNodesMark (k ++ rest) = false := by
+  unfold hasNodesMark
+  match k, hk with
+  | a :: b :: c :: d :: e :: f :: k', _ =>
+    simp only [List.cons_append, List.isPrefixOf] at h ⊢
+    simpa using h
 
 theorem isInfixC_of_prefix (m x : List Char) (h : m.isPrefixOf x = true) : isInfixC m x = true := by
   cases x with
@@ -271,7 +294,7 @@ theorem isInfixC_append (m a x b : List Char) (h : isInfixC m x = true) :
   rw [List.append_assoc]
   exact isInfixC_append_left m a _ (isInfixC_append_right m x b h)
 
-/-- the header ends at the FIRST line that contains `.nodes`, whatever the line is -/
+/-- the header ends at the FIRST line that has the `.nodes` mark -/
 theorem dddmpHeaderLines_cut (pre : List (List Char)) (l : List Char) (post : List (List Char))
     (hpre : ∀ x ∈ pre, hasNodesMark x = false) (hl : hasNodesMark l = true) :
     dddmpHeaderLines (pre ++ l :: post) = pre := by
@@ -291,8 +314,8 @@ theorem dropWhile_cut (pre : List (List Char)) (l : List Char) (post : List (Lis
     simp only [List.cons_append, List.dropWhile_cons, hpre a List.mem_cons_self, Bool.not_false, if_true]
     exact ih (fun x hx => hpre x (List.mem_cons_of_mem _ hx))
 
-/-- the body ends at the first line after `.nodes` that contains `.end`, whatever the line is:
-a node line of a variable called `y.end` ends it, and the lines after it are never read -/
+/-- the body ends at the first line after `.nodes` that has the `.end` mark; the lines after it
+are never read -/
 theorem dddmpBodyLines_cut (pre : List (List Char)) (l : List Char) (body : List (List Char))
     (l' : List Char) (post : List (List Char))
     (hpre : ∀ x ∈ pre, hasNodesMark x = false) (hl : hasNodesMark l = true)
